@@ -400,10 +400,7 @@ fn parse_v_slots_directive(jsx_attr: &JSXAttr) -> Directive {
         Some(JSXAttrValue::JSXExprContainer(JSXExprContainer {
             expr: JSXExpr::Expr(expr),
             ..
-        })) => match &**expr {
-            Expr::Ident(..) | Expr::Object(..) => Some(expr.clone()),
-            _ => None,
-        },
+        })) => Some(expr.clone()),
         _ => None,
     };
     Directive::Slots(expr)
